@@ -95,7 +95,10 @@ class Rule(JupyterMixin):
             rule_text.append(characters * (width - rule_text.cell_len), self.style)
         elif self.align == "right":
             title_text.truncate(width - 2, overflow="ellipsis")
-            rule_text.append(characters * (width - title_text.cell_len - 1), self.style)
+            fill_width = max(0, width - title_text.cell_len - 1)
+            fill = Text(characters * (fill_width // chars_len + 1))
+            fill.truncate(fill_width)
+            rule_text.append(fill.plain, self.style)
             rule_text.append(" ")
             rule_text.append(title_text)
 
